@@ -239,6 +239,11 @@ class Builder:
             step = self.build(src_step, context, gate_context)
             if step is None:
                 step = 1
+            for bound in (start, stop, step):
+                if not isinstance(bound, (int, AnnotatedValue)):
+                    raise JaqalError(
+                        f"Cannot map {src_name} to {name}: invalid slice bound {bound}"
+                    )
             return Register(name, alias_from=src, alias_slice=slice(start, stop, step))
         raise JaqalError(f"Wrong number of arguments for map, found {args}")
 
